@@ -56,6 +56,13 @@ type ModelInfo struct {
 	S     int    `json:"s"`
 	Insts []Inst `json:"insts"`
 	Full  []Step `json:"full"`
+	Red   []RS   `json:"red"` // the steps kept in the model
+}
+
+type RS struct {
+	O string `json:"o"`
+	L string `json:"l"`
+	I int    `json:"i"`
 }
 
 type rstep struct {
@@ -569,6 +576,9 @@ func mine(dir string, minN, maxN, nm, level int) (map[string]interface{}, error)
 				maxLen = len(red)
 			}
 			mi = &ModelInfo{ID: m.ID, W: t.W, S: t.S, Full: t.Steps}
+			for _, st := range red {
+				mi.Red = append(mi.Red, RS{st.o, st.l, st.i})
+			}
 			idx[k] = mi
 			order = append(order, m)
 			infos = append(infos, mi)
